@@ -1,0 +1,67 @@
+//go:build verif
+
+package transport_controller
+
+import (
+	"github.com/aperturerobotics/bifrost/link"
+	"github.com/aperturerobotics/bifrost/peer"
+)
+
+// VerifLinkEntry is one entry of a link table copied by VerifSnapshotLinks.
+type VerifLinkEntry struct {
+	// UUID is the key in Controller.links (zero for linksByPeerID entries).
+	UUID uint64
+	// PeerID is the key in Controller.linksByPeerID (empty for links entries).
+	PeerID peer.ID
+	// Link is the link held by the entry (nil if the entry was nil).
+	Link link.Link
+	// EL identifies the establishedLink object (comparable, nil if nil).
+	EL any
+}
+
+// VerifLinkSnapshot is a copy of the link tables of a Controller.
+type VerifLinkSnapshot struct {
+	// PeerID is the local peer id field (empty while not executing).
+	PeerID peer.ID
+	// Links is a copy of Controller.links.
+	Links []VerifLinkEntry
+	// LinksByPeerID is a copy of Controller.linksByPeerID (one entry per slice element).
+	LinksByPeerID []VerifLinkEntry
+	// EmptyPeerKeys counts keys of linksByPeerID holding an empty slice.
+	EmptyPeerKeys int
+}
+
+// VerifSnapshotLinksLocked copies links and linksByPeerID.
+// The caller must hold c.bcast (e.g. from inside a verifhook event emitted under the lock).
+func (c *Controller) VerifSnapshotLinksLocked() *VerifLinkSnapshot {
+	s := &VerifLinkSnapshot{PeerID: c.peerID}
+	for k, el := range c.links {
+		e := VerifLinkEntry{UUID: k}
+		if el != nil {
+			e.Link, e.EL = el.lnk, el
+		}
+		s.Links = append(s.Links, e)
+	}
+	for k, els := range c.linksByPeerID {
+		if len(els) == 0 {
+			s.EmptyPeerKeys++
+		}
+		for _, el := range els {
+			e := VerifLinkEntry{PeerID: k}
+			if el != nil {
+				e.Link, e.EL = el.lnk, el
+			}
+			s.LinksByPeerID = append(s.LinksByPeerID, e)
+		}
+	}
+	return s
+}
+
+// VerifSnapshotLinks copies links and linksByPeerID under the controller lock.
+func (c *Controller) VerifSnapshotLinks() *VerifLinkSnapshot {
+	var s *VerifLinkSnapshot
+	c.bcast.HoldLock(func(broadcast func(), getWaitCh func() <-chan struct{}) {
+		s = c.VerifSnapshotLinksLocked()
+	})
+	return s
+}
